@@ -444,8 +444,16 @@ def forked_check(solver, seconds):
     import os
     import select
     import signal
-    rd, wr = os.pipe()
-    pid = os.fork()
+    try:
+        rd, wr = os.pipe()
+    except OSError:
+        return 'unknown'
+    try:
+        pid = os.fork()
+    except OSError:              # no process / memory available right now: undecided by this back end, not a crash
+        os.close(rd)
+        os.close(wr)
+        return 'unknown'
     if pid == 0:
         try:
             os.close(rd)
